@@ -30,7 +30,7 @@ type stCase struct {
 	Runner string `json:"runner"`
 	Kind   string `json:"kind"` // exit | raise | fault | sys | ext | badexec
 	N      int    `json:"n"`
-	Child  string `json:"child"` // none | exitfirst | outlive | killed
+	Child  string `json:"child"` // none | exitfirst | outlive | killed | orphanexit | orphankilled
 	CN     int    `json:"cn"`
 }
 
@@ -53,7 +53,7 @@ func specOf(c stCase) (limrun.Spec, error) {
 	switch c.Child {
 	case "none", "outlive":
 		s.Child = c.Child
-	case "exitfirst", "killed":
+	case "exitfirst", "killed", "orphanexit", "orphankilled":
 		s.Child = c.Child + ":" + strconv.Itoa(c.CN)
 	default:
 		return s, fmt.Errorf("bad child %q", c.Child)
